@@ -235,7 +235,7 @@ def run_check(prop, tier, seed):
     flags = ['-timeout', str(spec.get('solver_timeout_ms', 60000 if tier == 'quick' else 300000))]
     if spec.get('partition', True):
         flags.append('-partition')
-    flags += ['-maxviol', str(spec.get('maxviol', 6))]
+    flags += ['-maxviol', str(spec.get('maxviol', 6)), '-jobtimeout', str(spec.get('job_timeout_s', 600 if tier == 'quick' else 3600))]
     log('[%s %s] %d jobs in %d groups, %d workers' % (prop, tier, len(jobs), len(groups), min(NCPU, len(jobs))))
     # harnesses that use library internals are loaded only for the groups that need them, so
     # that a refactoring of internals cannot take the public-API groups down with it
@@ -301,7 +301,9 @@ def run_check(prop, tier, seed):
             return {r['id']: {a: (st['reached'] > 0, st['violated'] > 0) for a, st in r.get('asserts', {}).items()} for r in rs}
         base = verdicts([byid[j['id']] for j in sample])
         for label, xflags, xjobs in (('z3-new', ['-solver', 'z3-new'], sample), ('cvc5', ['-solver', 'cvc5'], sample[:12]),
-                                     ('no-merge', ['-nomerge'], sample[:16])):
+                                     ('no-merge', ['-nomerge'], [j for j in sample if not j.get('nofallback') and gof[j['id']].get('cost', 1) <= 5][:16])):
+            if not xjobs:
+                continue
             xr, xf = run_engine(work, xjobs, flags + xflags + (['-internal'] if any(gof[j['id']].get('internal') for j in xjobs) else []), timeout=1800, tag='cross_' + label.replace('-', ''))
             if xf:
                 cross[label] = dict(jobs=len(xjobs), status='not completed: ' + '; '.join(xf)[:200])
